@@ -1,7 +1,7 @@
-import Driver.Util
-/- Sub-protocol `C04`: not built yet. -/
+import Driver.Machine
+/- Sub-protocol `C04`: the machine protocol (see Driver/Machine.lean). -/
 namespace Driver.C04
 
-def proto : Driver.Proto := { σ := Unit, init := (), handle := fun s _ => (s, "unimplemented") }
+def proto : Driver.Proto := Driver.Machine.proto
 
 end Driver.C04
